@@ -112,7 +112,8 @@ def search_alpha_s(chk, r, n):
     from yadism.output import Output
 
     for _ in range(n):
-        fns, nfff = r.choice([("FFNS", 3), ("FFNS", 4), ("FFNS", 5), ("FFN0", 4), ("ZM-VFNS", 4)])
+        # FONLL-* runs are fixed-flavour runs (the parts are combined afterwards): nf = NfFF as well
+        fns, nfff = r.choice([("FFNS", 3), ("FFNS", 4), ("FFNS", 5), ("FFN0", 4), ("ZM-VFNS", 4), ("FONLL-FFNS", 3), ("FONLL-FFNS", 4), ("FONLL-FFN0", 4)])
         aref = float(r.choice([0.118, 0.13, 0.35]))
         Qref = float(r.choice([91.2, 10.0, 2.0]))
         nfref = {3: 3, 4: 4, 5: 5}[nfff] if fns != "ZM-VFNS" else (5 if Qref > 4.92 else (4 if Qref > 1.51 else 3))
